@@ -124,9 +124,12 @@ End WithMerge.
 
 (* The concrete operator used by the harness: existing ++ ":" ++ operand
    (MergeOperatorStringAppend with Sep ":"), except that operand "!" yields
-   nil — exercises FullMerge returning nil. *)
+   nil — exercises FullMerge returning nil — and operand "=" keeps an existing
+   value as it is (the harness operator then returns the very slice it was
+   given: exercises value ownership). *)
 Definition fm_append (k : bytes) (cur : value) (v : bytes) : value :=
-  match v with
-  | [33%N] => None
-  | _ => Some (match cur with Some c => c | None => [] end ++ 58%N :: v)
+  match v, cur with
+  | [33%N], _ => None
+  | [61%N], Some c => Some c
+  | _, _ => Some (match cur with Some c => c | None => [] end ++ 58%N :: v)
   end.
